@@ -3,7 +3,7 @@ from common import COMMON_TB
 PROP = {
     "bin": "c14",
     "prop_file": "Properties/C14.v",
-    "model_files": ["Agg/Intermediate.v", "Agg/Metrics.v", "Agg/Buckets.v", "Agg/Tree.v", "Agg/TreeProofs.v"],
+    "model_files": ["Agg/Intermediate.v", "Agg/Metrics.v", "Agg/Buckets.v", "Agg/Tree.v", "Agg/TreeProofs.v", "Agg/Ext.v"],
     "level": "proof",
     "engine": "E7-aggregation",
     "level_text": "Proof: intermediate results are modelled as one tree type (accumulator + canonical key->child map per node, the common shape of "
@@ -23,6 +23,13 @@ PROP = {
                   "(returned counts are lower bounds short by at most doc_count_error_upper_bound, returned counts + sum_other_doc_count = all term occurrences), not proved; ties among equal sort values of terms buckets are resolved by key in the model while the code "
                   "uses an unstable sort -- the spec relation `match_res` accepts any correct top-`size` selection; values are integers (f64 sums exact); date_histogram, "
                   "composite, percentiles, cardinality, extended_stats, top_hits and the memory limit are not modelled. "
+                  "Outside the modelled language the harness decides directed scenarios against oracles computed on the implementation side and against each other "
+                  "(1 segment / 2-5 segments / column-carrying documents apart / distributed merge orders with empty results at any position): metrics with `missing`, range and "
+                  "cardinality over a dynamic JSON path, composite (terms and date_histogram fixed_interval sources, instants before 1970), terms(min_doc_count 0) > composite, "
+                  "histogram > top_hits over segments with several sub-aggregation flushes; failures are classified by coq/Agg/Ext.v: known findings F142-F146 "
+                  "(C14_truncating_division_wrong_iff characterises F144 exactly; the other classes have computed witnesses). "
+                  "Directed streams also cover batches of exactly one document (one-document segments, singleton buckets, 64k+1 documents) over multi-valued metric fields, "
+                  "and an index without segments / `default()` as accumulator of every merge shape. "
                   "Known finding F141 (implementation, not model): sub-aggregations below a range/histogram bucket that receives a document with >= 2 values depend on the "
                   "segment layout (witness theorem C14_duplicate_doc_push_refuted, replayed on the implementation every run). "
                   "Tie/spec: AggregationCollector JSON of every generated (corpus, request, query) vs `direct` evaluated in Coq (spec) and vs the model's "
